@@ -453,7 +453,7 @@ theorem sim_conn_dialer_ok (st : State) (j : J) (e : Ep) (peer : Nat) (orc : Lis
     | false =>
       have := (hr.mid.w.own p hp hl e he hpe.symm).2 hd
       rw [hex.2.1] at this; cases this
-  obtain ⟨rest, hrest, hevs, hmid, hsame⟩ := startPipe_sim (.connDone e.idx (.ok peer)) st1 j0 e.idx e.sock peer x1
+  obtain ⟨rest, hrest, hevs, hmid, hsame⟩ := startPipe_sim (.connDone e.idx (.ok peer)) rfl st1 j0 e.idx e.sock peer x1
     (fun q h1 h2 h3 h4 => dial_ok_W st e q hr.mid.w he ha hd h1 h2 h3 h4) hr.mid.pinv hr.mid.lso
     (hr.inv.g.s.epsOpen e he hopen) (hj0same.1.trans hr.mid.now) (hj0same.2.2.2.2.2.1.trans hr.mid.e14)
     (hj0same.2.2.2.2.2.2.trans hr.mid.e10) (by intro s; rw [hj0same.2.1]; exact hr.mid.socks s) hj0eps
@@ -537,7 +537,7 @@ theorem sim_conn_listener_ok (st : State) (j : J) (e : Ep) (peer : Nat) (orc : L
     show _ ∈ (st.eps.map _)
     exact List.mem_map.mpr ⟨e, he, by simp⟩)
   have hx1d : x1.dialer = false := by rw [hER1.dialer]; exact hd
-  obtain ⟨rest, hrest, hevs, hmid, hsame⟩ := startPipe_sim (.connDone e.idx (.ok peer)) st1 j e.idx e.sock peer x1
+  obtain ⟨rest, hrest, hevs, hmid, hsame⟩ := startPipe_sim (.connDone e.idx (.ok peer)) rfl st1 j e.idx e.sock peer x1
     (fun q h1 h2 h3 h4 => append_W st1 q hw1 h1 (by rw [h2]; show e.idx < (st.eps.map _).length; rw [List.length_map]; exact hr.mid.w.idxE.lt he)
       (by
         intro y hy hi
